@@ -334,6 +334,31 @@ def run(ck):
     if ck.thorough and proofs_ok:
         ck.coqchk(["Verif.Props.C06"])
 
+    # psqlKV.mutate cannot be run (no PostgreSQL here): its shape is read off the source
+    try:
+        gsrc = open(vlib.os.path.join(vlib.COQ, "theories", "Gen", "KvSql.v")).read()
+        begin = re.search(r'gen_psql_mutate_begin : string := "(.*)"\.', gsrc).group(1)
+        sel = re.search(r'gen_psql_mutate_select : string := "(.*)"\.', gsrc).group(1)
+        locks = re.search(r"gen_psql_mutate_select_locks_row : bool := (\w+)\.", gsrc).group(1) == "true"
+        ck.coverage["psql_mutate_shape"] = {"begin": begin, "select": sel, "select_locks_row": locks}
+        if begin.endswith(".Begin()") and not locks:
+            ck.violation(
+                "shape:psql-mutate:read-committed-lost-update",
+                "psqlKV.mutate begins a transaction with default options (PostgreSQL: READ COMMITTED), reads the "
+                "value with a SELECT that takes no row lock and writes back a value computed from it: two "
+                "concurrent Mutates of one key can both succeed and apply only one update",
+                {"code_shape": {"begin": begin, "select": sel, "update": "update %s set v=$1 where k=$2"},
+                 "schedule": ["T1: BEGIN; SELECT v -> 0", "T2: BEGIN; SELECT v -> 0",
+                              "T1: f(0)=1; UPDATE v=1; COMMIT -> ok", "T2: f(0)=1; UPDATE v=1; COMMIT -> ok"],
+                 "expected": "counter 2 after two successful increments", "model_result": "counter 1",
+                 "basis": "PostgreSQL documentation 13.2.1 Read Committed Isolation Level; model and schedule: "
+                          "Kv/AtomicPg.v pg_rc_lost_update (Props/C06.v C06_psql_read_committed_lost_update); "
+                          "not executed: PostgreSQL cannot run in this environment",
+                 "repair": "SELECT ... FOR UPDATE (C06_psql_for_update_serializable), or REPEATABLE READ / "
+                           "SERIALIZABLE with a retry on serialization failure"})
+    except (OSError, AttributeError) as e:
+        ck.broken.append({"what": "psql mutate shape not found in Gen/KvSql.v", "detail": str(e)})
+
     runs = []
     binp = ck.build_harness("c06")
     if binp:
